@@ -10,6 +10,7 @@ import (
 	"math/rand"
 	"os"
 	"strings"
+	"time"
 
 	"verifharness/sx"
 )
@@ -121,7 +122,7 @@ func main() {
 	for _, c := range cases {
 		var obs sx.S = sx.L("invalid")
 		if validInput(p, c.Input) {
-			obs = p.Exec(c.Input)
+			obs = execWatched(p, c.Input)
 		}
 		fmt.Fprintln(w, sx.String(sx.L("case", c.ID, id, c.Input, obs)))
 		_ = enc.Encode(metaLine{ID: c.ID, Tags: c.Tags, Human: c.Human})
@@ -130,4 +131,25 @@ func main() {
 	f.Close()
 	mw.Flush()
 	mf.Close()
+}
+
+// execWatched runs one case; a case that does not come back (the library blocked for good) is observed
+// as (timeout) instead of stopping the whole run. Ninety seconds are granted (the slowest cases spawn
+// watched child processes of their own); after three such cases, five seconds.
+var execTimeouts int
+
+func execWatched(p *Prop, input sx.S) sx.S {
+	ch := make(chan sx.S, 1)
+	go func() { ch <- p.Exec(input) }()
+	patience := 90 * time.Second
+	if execTimeouts >= 3 {
+		patience = 5 * time.Second
+	}
+	select {
+	case obs := <-ch:
+		return obs
+	case <-time.After(patience):
+		execTimeouts++
+		return sx.L("timeout")
+	}
 }
